@@ -68,6 +68,11 @@ def make_tree(root):
     open(os.path.join(root, "sib", "sib.go"), "w").write("package sib\n\n// X is here.\ntype X int\n")
     open(os.path.join(root, "bad", "bad.go"), "w").write("package bad\n\nfunc broken( {\n")
     open(os.path.join(root, "plainfile"), "w").write("not a directory\n")
+    # a very wide interface: the generated file is a few hundred kilobytes (pipes, buffers, formatters)
+    os.makedirs(os.path.join(root, "big"))
+    open(os.path.join(root, "big", "big.go"), "w").write(
+        "package big\n\n// Store is wide.\ntype Store interface {\n" +
+        "".join("\tOp%03d(ctx string, key string, value []byte, opts ...int) (string, error)\n" % i for i in range(360)) + "}\n")
     # a second module whose go.mod the go command considers out of date (a direct dependency marked
     # `// indirect`, resolved through a local replace): nothing may "tidy" it (C18)
     os.makedirs(os.path.join(root, "mod2", "svc2"))
@@ -125,6 +130,10 @@ def scenarios(rnd, tier):
             for rm in (False, True):
                 S.append(dict(srcdir="svc", args=args, out="gen/keep/mock.go", rm=rm, prior=prior, flags=["-pkg", "keep"]))
             S.append(dict(srcdir="svc", args=args, out="svc/good_moq.go", rm=False, prior=prior, flags=[]))
+    # the wide interface under every formatter value, known or not (an unknown value means gofmt)
+    for fl in ([], ["-fmt", "noop"], ["-fmt", "cat"], ["-fmt", "tee"], ["-fmt", "goimports"]):
+        S.append(dict(srcdir="big", args=["Store"], out=None, rm=False, prior="absent", flags=fl))
+    S.append(dict(srcdir="big", args=["Store"], out="big/store_moq.go", rm=False, prior="absent", flags=["-fmt", "cat"]))
     # -pkg naming the source package's own name, for a file written into another directory (with
     # -skip-ensure: without it the self-check line is the F-09 class, a recorded finding)
     for fl in (["-pkg", "svc", "-skip-ensure"], ["-pkg", "svc", "-skip-ensure", "-stub", "-with-resets"]):
